@@ -19,6 +19,29 @@ def floors(ctx: Ctx, sa: SiteAnalysis):
     ctx.floor("registered union hook keys", len(sa.disp.registry), 60)
     ctx.floor("hook functions analysed", len(sa.hooks.all_hook_functions()), 40)
     ctx.floor("alternative x world outcomes", len(sa.outcomes), 150)
+    converter_precondition(ctx)
+
+
+def converter_precondition(ctx: Ctx):
+    """What the site analysis says about "the converter" holds for every converter get_converter hands out only if each
+    call yields a converter of its own that went through register_hooks (a cached / shared default converter lets one
+    caller's customisation change another caller's results; a caller-supplied converter must get the hooks too).  Decided
+    by the fold of get_converter in C19; its findings are taken over."""
+    if getattr(ctx, "_conv_pre_done", False):
+        return
+    ctx._conv_pre_done = True
+    from ..common import Ctx as _Ctx, AnalysisError as _AE
+    from . import c19 as _c19
+    sub = _Ctx(ctx.prop, ctx.tier, ctx.seed, ctx.src, quiet=True)
+    try:
+        _c19.run(sub)
+    except _AE:
+        pass
+    hits = [f for f in sub.findings if f.rule == "fresh-converter"]
+    for f in hits:
+        ctx.fail("converter-is-own-and-hooked", f.construct, f.message, f.file, f.line)
+    if not hits:
+        ctx.ok("converter-is-own-and-hooked")
 
 
 def report(ctx: Ctx, sa: SiteAnalysis, cats: dict[str, str], site_cats: dict[str, str]):
